@@ -351,6 +351,114 @@ theorem C15_refusal_uses_configured_action (c : Cfg) (conn : Option Str) (mailFr
   | none => exact .inl rfl
   | some u => exact authzSender_shape c u mailFrom
 
+/-! ## the action directives: the word decides, a custom reply never does
+
+`unauth_action`, `no_match_action`, `err_action` are written `ignore`, `reject`, `quarantine` or
+`reject|quarantine <code> [<enhanced code> [<text>]]`.  Whatever reply is configured, the parsed
+action asks for rejection exactly when the word is `reject` and for quarantine exactly when it is
+`quarantine`; the reply only appears in `Result.reply`. -/
+
+theorem fail_reply (a : FailAction) (r : Reason) : (fail a r).reply = a.override := by
+  simp only [fail, FailAction.apply]
+  cases a.override <;> rfl
+
+/-- **C15 (action grammar).** The flags of a parsed action directive are those of its first word,
+whatever follows it. -/
+theorem C15_action_flags_from_word (w : Str) (rest : List Str) (a : FailAction)
+    (h : parseActionDirective (w :: rest) = some a) :
+    a.reject = (w == REJECT) ∧ a.quarantine = (w == QUARANTINE) := by
+  simp only [parseActionDirective] at h
+  split at h
+  · split at h
+    · cases h; exact ⟨rfl, rfl⟩
+    · split at h
+      · cases h
+      · cases h; exact ⟨rfl, rfl⟩
+  · split at h
+    · cases h; exact ⟨rfl, rfl⟩
+    · cases h
+
+/-- **C15 (custom reply).** A directive with a custom reply parses to the same flags as the bare
+word (which always parses when the long form does): the reply changes the answer's code and text,
+never whether the message is rejected or quarantined. -/
+theorem C15_custom_reply_keeps_flags (w : Str) (rest : List Str) (a : FailAction)
+    (h : parseActionDirective (w :: rest) = some a) :
+    ∃ a0, parseActionDirective [w] = some a0 ∧ a0.reject = a.reject ∧ a0.quarantine = a.quarantine ∧
+      a0.override = none := by
+  obtain ⟨hr, hq⟩ := C15_action_flags_from_word w rest a h
+  refine ⟨wordFlags w, ?_, by simp [wordFlags, hr], by simp [wordFlags, hq], rfl⟩
+  simp only [parseActionDirective] at h ⊢
+  split
+  · rfl
+  · rename_i hw
+    rw [if_neg hw] at h
+    split at h
+    · rename_i hi; rw [if_pos hi]
+    · cases h
+
+/-- `reject …` parses to a rejecting action, `quarantine …` to a quarantining one, `ignore …` to neither. -/
+theorem C15_reject_directive_rejects (rest : List Str) (a : FailAction)
+    (h : parseActionDirective (REJECT :: rest) = some a) : a.reject = true ∧ a.quarantine = false := by
+  obtain ⟨hr, hq⟩ := C15_action_flags_from_word _ rest a h
+  exact ⟨by rw [hr]; decide, by rw [hq]; decide⟩
+
+theorem C15_quarantine_directive_quarantines (rest : List Str) (a : FailAction)
+    (h : parseActionDirective (QUARANTINE :: rest) = some a) : a.reject = false ∧ a.quarantine = true := by
+  obtain ⟨hr, hq⟩ := C15_action_flags_from_word _ rest a h
+  exact ⟨by rw [hr]; decide, by rw [hq]; decide⟩
+
+/-- The reply of an action does not enter the decision: two actions that differ only in their
+reply give results that differ only in the reply. -/
+theorem C15_reply_does_not_change_the_flags (a : FailAction) (o : Option Reply) (r : Result) :
+    ({ a with override := o }.apply r).reject = (a.apply r).reject ∧
+    ({ a with override := o }.apply r).quarantine = (a.apply r).quarantine ∧
+    ({ a with override := o }.apply r).reason = (a.apply r).reason := by
+  simp only [FailAction.apply]
+  cases r.reason <;> simp
+
+/-- A configuration block whose three action directives are written with the word `reject` — with
+or without a custom reply — or are left out. -/
+def RejectWritten (d : Option FailAction) : Prop :=
+  d = none ∨ ∃ rest a, parseActionDirective (REJECT :: rest) = some a ∧ d = some a
+
+/-- **C15 (reject with any reply).** Whenever the configured actions say `reject` — bare, with a
+custom code, enhanced code or text, or by default — a client's message is accepted only if the
+client is authenticated, entitled to the envelope sender and (with header checking) the author is
+an address the user is entitled to. -/
+theorem C15_reject_with_any_reply_accepted_only_if_entitled (d : Directives)
+    (h1 : RejectWritten d.unauthAction) (h2 : RejectWritten d.noMatchAction) (h3 : RejectWritten d.errAction)
+    (u mailFrom : Str) (h : Header) (hacc : accepted d.cfg (some u) mailFrom h = true) :
+    u ≠ [] ∧ Entitled d.cfg u mailFrom ∧ (d.cfg.checkHeader = true → AuthorOK d.cfg u h) := by
+  have key : ∀ x : Option FailAction, RejectWritten x → (x.getD rejectAction).reject = true := by
+    intro x hx
+    rcases hx with hx | ⟨rest, a, hp, hx⟩
+    · rw [hx]; rfl
+    · rw [hx]; exact (C15_reject_directive_rejects rest a hp).1
+  exact C15_accepted_only_if_entitled d.cfg ⟨key _ h1, key _ h2, key _ h3⟩ u mailFrom h hacc
+
+/-- **C15 (unauthenticated, any reply).** `unauth_action reject …`: an unauthenticated client's MAIL
+FROM is refused with the reject flag; `unauth_action quarantine …`: with the quarantine flag. -/
+theorem C15_unauthenticated_refused_with_any_reply (c : Cfg) (w : Str) (rest : List Str) (a : FailAction)
+    (hp : parseActionDirective (w :: rest) = some a) (hc : c.unauthAction = a) (mailFrom : Str) :
+    (checkSender c (some []) mailFrom).reason = some .authRequired ∧
+    (checkSender c (some []) mailFrom).reject = (w == REJECT) ∧
+    (checkSender c (some []) mailFrom).quarantine = (w == QUARANTINE) ∧
+    (checkSender c (some []) mailFrom).reply = a.override := by
+  obtain ⟨hr, hq⟩ := C15_action_flags_from_word w rest a hp
+  have hs : checkSender c (some []) mailFrom = fail a .authRequired := by
+    simp [checkSender, authzSender, refuse, actionFor, hc]
+  rw [hs]
+  exact ⟨fail_reason _ _, by rw [fail_reject, hr], by rw [fail_quarantine, hq], fail_reply _ _⟩
+
+/-- A refusal because of no entitlement carries the flags of the `no_match_action` word. -/
+theorem C15_no_match_refused_with_any_reply (c : Cfg) (w : Str) (rest : List Str) (a : FailAction)
+    (hp : parseActionDirective (w :: rest) = some a) (hc : c.noMatchAction = a) :
+    (refuse c .noMatch).reject = (w == REJECT) ∧ (refuse c .noMatch).quarantine = (w == QUARANTINE) ∧
+    (refuse c .noMatch).reply = a.override := by
+  obtain ⟨hr, hq⟩ := C15_action_flags_from_word w rest a hp
+  simp only [refuse, actionFor, hc]
+  exact ⟨by rw [fail_reject, hr], by rw [fail_quarantine, hq], fail_reply _ _⟩
+
 /-- **C15 (submission endpoint).** `submissionPrepare` writes neither `From` nor `Sender`: the
 author fields the check judges are the ones the client sent and the ones that are delivered. -/
 theorem C15_submission_prepare_leaves_author_fields :
@@ -415,6 +523,81 @@ theorem C15_pass_implies_entry_up_to_spelling (c : Cfg) (canon : Str → Str) (h
   · obtain ⟨m', d', hsa, hcd⟩ := hs.dom a p m d hna hsp
     subst hd
     exact .inr (.inr ⟨m', d', hsa, hcd⟩)
+
+/-! ## entitlement is LITERAL equality after the configured normaliser
+
+`from_normalize` decides which spellings are one address: under a case-preserving setting
+(`precis_email`, `precis`, `noop`) `Support@example.org` and `support@example.org` have different
+prepared forms and are different mailboxes.  The comparison itself adds no folding of its own. -/
+
+/-- **C15 (literal comparison).** Without an alias table, an address passes only if its PREPARED form
+(the result of the configured normaliser) is literally an entry, its `split` domain is literally an
+entry, or `*` is an entry. -/
+theorem C15_pass_implies_prepared_form_listed (c : Cfg)
+    (hid : ∀ na, prepared c.emailPrepare na = .ok [na]) (u a : Str)
+    (h : (authzSender c u a).reason = none) :
+    ∃ nu na es, c.authNorm u = some nu ∧ c.fromNorm a = some na ∧ tableEntries c.userToEmail nu = .ok es ∧
+      ∃ e ∈ es, Covers e na := by
+  obtain ⟨_, nu, na, ps, es, hnu, hna, hps, hes, p, hp, e, he, hc⟩ := authzSender_pass c u a h
+  rw [hid na] at hps
+  cases hps
+  simp at hp
+  subst hp
+  exact ⟨nu, p, es, hnu, hna, hes, e, he, hc⟩
+
+/-- One entry covering two DIFFERENT prepared forms is the wildcard or the domain of one of them: an
+address entry entitles to exactly one prepared form. -/
+theorem Covers_two_forms (e p q : Str) (hpq : p ≠ q) (hp : Covers e p) (hq : Covers e q) :
+    e = STAR ∨ (∃ m d, split p = .ok (m, d) ∧ e = d) ∨ (∃ m d, split q = .ok (m, d) ∧ e = d) := by
+  obtain ⟨_, hp⟩ := hp
+  obtain ⟨_, hq⟩ := hq
+  rcases hp with hp | hp | hp
+  · exact .inl hp
+  · rcases hq with hq | hq | hq
+    · exact .inl hq
+    · exact absurd (hp.symm.trans hq) hpq
+    · exact .inr (.inr hq)
+  · exact .inr (.inl hp)
+
+/-- **C15 (different prepared forms never share an address entry).** Two addresses whose prepared
+forms differ — e.g. two letter-case spellings of a local part under a case-preserving
+`from_normalize` — both pass only if EACH prepared form is covered by an entry of the user's list;
+and if it is one and the same entry, that entry is `*` or a domain entry.  In particular a list of
+address entries lets both pass only if both prepared forms are literally listed. -/
+theorem C15_different_prepared_forms_share_no_address_entry (c : Cfg)
+    (hid : ∀ na, prepared c.emailPrepare na = .ok [na]) (u a b na nb : Str)
+    (hna : c.fromNorm a = some na) (hnb : c.fromNorm b = some nb) (hne : na ≠ nb)
+    (ha : (authzSender c u a).reason = none) (hb : (authzSender c u b).reason = none) :
+    ∃ nu es, c.authNorm u = some nu ∧ tableEntries c.userToEmail nu = .ok es ∧
+      ∃ ea ∈ es, ∃ eb ∈ es, Covers ea na ∧ Covers eb nb ∧
+        (ea = eb → ea = STAR ∨ (∃ m d, split na = .ok (m, d) ∧ ea = d) ∨ (∃ m d, split nb = .ok (m, d) ∧ ea = d)) := by
+  obtain ⟨nu, na', es, hnu, hna', hes, ea, hea, hca⟩ := C15_pass_implies_prepared_form_listed c hid u a ha
+  obtain ⟨nu', nb', es', hnu', hnb', hes', eb, heb, hcb⟩ := C15_pass_implies_prepared_form_listed c hid u b hb
+  rw [hna] at hna'; cases hna'
+  rw [hnb] at hnb'; cases hnb'
+  rw [hnu] at hnu'; cases hnu'
+  rw [hes] at hes'; cases hes'
+  refine ⟨nu, es, hnu, hes, ea, hea, eb, heb, hca, hcb, ?_⟩
+  intro heq
+  subst heq
+  exact Covers_two_forms ea na nb hne hca hcb
+
+/-- … so with only address entries (no `*`, no entry that is the domain of either form) both prepared
+forms are literally in the list. -/
+theorem C15_address_entries_entitle_only_listed_forms (c : Cfg)
+    (hid : ∀ na, prepared c.emailPrepare na = .ok [na]) (u a nu na : Str) (es : List Str)
+    (hnu : c.authNorm u = some nu) (hna : c.fromNorm a = some na) (hes : tableEntries c.userToEmail nu = .ok es)
+    (hstar : STAR ∉ es) (hdom : ∀ m d, split na = .ok (m, d) → d ∉ es)
+    (ha : (authzSender c u a).reason = none) : na ∈ es := by
+  obtain ⟨nu', na', es', hnu', hna', hes', e, he, hc⟩ := C15_pass_implies_prepared_form_listed c hid u a ha
+  rw [hna] at hna'; cases hna'
+  rw [hnu] at hnu'; cases hnu'
+  rw [hes] at hes'; cases hes'
+  obtain ⟨_, hc⟩ := hc
+  rcases hc with hc | hc | ⟨m, d, hs, hd⟩
+  · exact absurd (hc ▸ he) hstar
+  · exact hc ▸ he
+  · exact absurd (hd ▸ he) (hdom m d hs)
 
 /-! ## the check is not trivially refusing: entitled senders pass -/
 
@@ -624,9 +807,9 @@ def exCfg : Cfg where
   checkHeader := true
   emailPrepare := .single fun k => .ok (some k)      -- table.Identity
   userToEmail := exTable
-  unauthAction := ⟨true, false⟩
-  noMatchAction := ⟨true, false⟩
-  errAction := ⟨true, false⟩
+  unauthAction := { reject := true, quarantine := false }
+  noMatchAction := { reject := true, quarantine := false }
+  errAction := { reject := true, quarantine := false }
   fromNorm := lowerNorm
   authNorm := lowerNorm
 
@@ -652,6 +835,34 @@ example : accepted exCfg (some (s "bob")) (s "bob@example.org") { fromFields := 
 -- unauthenticated / local
 example : accepted exCfg (some []) (s "alice@example.org") { fromFields := [one "alice@example.org"], senderFields := [] } = false := by decide
 example : accepted exCfg none (s "mailer-daemon@example.org") { fromFields := [], senderFields := [] } = true := by decide
+
+/-! case-preserving normalisation: `Alice@…` and `alice@…` are different prepared forms -/
+def preservingTable : Table := .multi fun k =>
+  if k = s "alice" then .ok [s "alice@example.org"] else .ok []
+def preservingCfg : Cfg := { exCfg with fromNorm := some, userToEmail := preservingTable }
+example : checkSender preservingCfg (some (s "alice")) (s "alice@example.org") = pass := by decide
+example : checkSender preservingCfg (some (s "alice")) (s "Alice@example.org") = refuse preservingCfg .noMatch := by decide
+example : checkSender preservingCfg (some (s "alice")) (s "alice@EXAMPLE.org") = refuse preservingCfg .noMatch := by decide
+example : ∀ na, prepared preservingCfg.emailPrepare na = .ok [na] := fun _ => rfl
+
+/-! action directives -/
+example : parseActionDirective [REJECT] = some { reject := true, quarantine := false } := by decide
+example : parseActionDirective [REJECT, s "553", s "5.7.1", s "Not yours"] =
+    some { reject := true, quarantine := false, override := some ⟨553, (5, 7, 1), s "Not yours"⟩ } := by decide
+example : parseActionDirective [QUARANTINE, s "450"] =
+    some { reject := false, quarantine := true, override := some ⟨450, (4, 7, 0), defaultReplyMsg⟩ } := by decide
+example : parseActionDirective [IGNORE] = some { reject := false, quarantine := false } := by decide
+example : parseActionDirective [REJECT, s "250"] = none := by decide
+example : parseActionDirective [REJECT, s "553", s "2.7.1"] = none := by decide
+example : parseActionDirective [REJECT, s "553", s "5.7"] = none := by decide
+example : parseActionDirective [REJECT, s "553", s "5.7.1", []] = none := by decide
+example : parseActionDirective [s "drop"] = none := by decide
+example : RejectWritten (parseActionDirective [REJECT, s "553", s "5.7.1", s "Not yours"]) :=
+  .inr ⟨[s "553", s "5.7.1", s "Not yours"], _, rfl, rfl⟩
+/-- the forged sender is refused under `no_match_action reject 553 5.7.1 "Not yours"`, with that reply -/
+example : checkSender { exCfg with noMatchAction := ⟨true, false, some ⟨553, (5, 7, 1), s "Not yours"⟩⟩ }
+    (some (s "bob")) (s "alice@example.org") =
+    { reason := some .noMatch, reject := true, quarantine := false, reply := some ⟨553, (5, 7, 1), s "Not yours"⟩ } := by decide
 
 -- an empty entry entitles to nothing, not even to the domain-less postmaster (whose `split`
 -- domain is the empty string), with or without `prepare_email email_localpart`
